@@ -40,7 +40,7 @@ AUDIT = "Ymq.Audit.C13"
 THEOREMS = ["Ymq.C13." + t for t in (
     "cursor_inv small_recovery table_recovery large_table_recovery recycled_clean listed_complete_inv "
     "listed_complete listed_complete_rehash no_panic no_panic_rehash cofactor_no_panic fbase_new_classes log_sum_bound "
-    "cofactor_spec " + "accumulator_hits_spec class_loops_cover accumulator_spec_small accumulator_spec_partial accumulator_overflow_iff accumulator_overflow_witness accumulator_no_overflow_small accumulator_no_overflow_partial smooths_threshold_spec smooth_candidate_reported").split()]
+    "cofactor_spec " + "accumulator_hits_spec class_loops_cover accumulator_spec_small accumulator_spec_partial accumulator_overflow_iff accumulator_overflow_witness accumulator_no_overflow_small accumulator_no_overflow_partial smooths_threshold_spec smooth_candidate_reported table_bucket_exact").split()]
 PROFILES = ["release", "chk"]
 TIMEOUT = 120.0
 HYPOTHESES = [
@@ -1255,7 +1255,8 @@ MODELLED = [
 UNMODELLED = [
     "the SIMD intrinsics of the threshold scan (wide::u8x16 max/compare) are modelled by their meaning (some byte of the 16-byte "
     "chunk exceeds threshold2 - 1); accumulator_spec_partial / accumulator_no_overflow_partial (general factor bases): it is not proved "
-    "that the bucket entries read back by sieve_block are exactly the hits registered by new/rehash for the block; the closed form is "
+    "that the bucket entries read back by sieve_block are exactly the hits registered by new/rehash for the block (proved at the "
+    "table level only: table_bucket_exact; not carried through the loops of new/rehash, not for SieveTableLarge); the closed form is "
     "proved for the primes below the block size (class_loops_cover, accumulator_spec_small, accumulator_no_overflow_small) and checked "
     "on the code including the large primes by the independent oracle",
     "log_sum_bound gives the region where the u8 log accumulators cannot overflow (bitlen(value) + number "
